@@ -1,7 +1,7 @@
 #!/bin/sh
 # every seed against the check of the property it targets (and list what was detected)
 cd /verif
-for d in seeded/*/; do
+for d in ${SEEDS:-seeded/*/}; do
   n=$(basename $d); pid=$(echo $n | cut -c1-3)
   out=$(./tools_seedtest.sh /verif/$d/patch.diff $pid 2>&1 | head -1)
   echo "$n: $out"
